@@ -38,7 +38,7 @@ def render_block(key, b, params=(), value_tag=None):
     if b['attrs']:
         anns.append('(attributes %s)' % ' '.join('%s=%s' % kv for kv in b['attrs']))
     for name, opts in b['anns']:
-        anns.append('(%s %s)' % (name, ' '.join(opts)))
+        anns.append('(%s %s)' % (name, ' '.join(opts)) if opts else '(%s)' % name)
     lines = ['/**', ' * %s:%s' % (key, (' ' + ' '.join(anns)) if anns else '')]
     for p in params:
         lines.append(' * @%s: a parameter' % p)
@@ -159,6 +159,22 @@ def gen_world(rng):
         b = gen_block(rng)
         blocks.append(('FooKind', b, render_block('FooKind', b)))
     elems.append(('EType', 'SOther', '', 'FooKind', ('enumeration', 'Kind')))
+    # enumeration members: documented by a block of their own (FOO_TONE_X:), by an @FOO_TONE_X entry of the enumeration's block,
+    # by both (the member's own block decides) or not at all
+    members = ['FOO_TONE_LOW', 'FOO_TONE_MID', 'FOO_TONE_HIGH']
+    syms.append(S.enum_typedef('FooTone', [(m, i, False) for i, m in enumerate(members)], line=230))
+    mdocs = {}
+    listed = [m for m in members if rng.random() < 0.5]
+    tb = gen_block(rng)
+    tb['skip'] = False
+    blocks.append(('FooTone', tb, render_block('FooTone', tb, listed)))
+    for m in members:
+        own = None
+        if rng.random() < 0.5:
+            own = gen_block(rng)
+            own['skip'] = own['skip'] and rng.random() < 0.5
+            blocks.append((m, own, render_block(m, own)))
+        mdocs[m] = dict(own=own, listed=m in listed)
     for i in range(rng.randint(1, 3)):
         cn = 'FOO_CONST%d' % i
         syms.append(S.const(cn, base=S.td('gint'), line=210 + i, const_int=7 + i))
@@ -201,11 +217,15 @@ def gen_world(rng):
              S.FS(S.CSYMBOL_TYPE_STRUCT, '_FooObjClass', base_type=S.FT(S.CTYPE_STRUCT, '_FooObjClass', child_list=[
                  S.FS(S.CSYMBOL_TYPE_MEMBER, 'parent_class', base_type=S.td('GObjectClass'), line=321),
                  member_cb('same', [selfp(), S.param('x', S.td('gint'))], 322), member_cb('it_slot', [selfp(), S.param('x', S.td('gint'))], 323),
-                 member_cb('lonely', [selfp()], 324)]), line=321),
+                 member_cb('lonely', [selfp()], 324),
+                 S.FS(S.CSYMBOL_TYPE_MEMBER, 'poke', base_type=S.td('FooPokeFunc'), line=325)]), line=321),
+             S.cbtypedef('FooPokeFunc', S.td('gint'), [selfp(), S.param('x', S.td('gint'))], line=315),
+             S.func('foo_obj_prod', S.td('gint'), [selfp(), S.param('x', S.td('gint'))], line=333),
              S.func('foo_obj_same', S.td('gint'), [selfp(), S.param('x', S.td('gint'))], line=330),
              S.func('foo_obj_do_it', S.td('gint'), [selfp(), S.param('x', S.td('gint'))], line=331)]
     vf = {}
-    for slot, method, via in (('same', 'foo_obj_same', None), ('it_slot', 'foo_obj_do_it', 'it_slot'), ('lonely', None, None)):
+    for slot, method, via in (('same', 'foo_obj_same', None), ('it_slot', 'foo_obj_do_it', 'it_slot'), ('lonely', None, None),
+                              ('poke', 'foo_obj_prod', 'poke')):      # the slot "poke" is declared through a callback typedef
         own = inv = None
         r = rng.random()
         if r < 0.3:
@@ -225,9 +245,10 @@ def gen_world(rng):
         syms.append(S.func('foo_obj_util', S.td('gint'), [S.param('x', S.td('gint'))], line=332))
         ub = gen_block(rng)
         ub['skip'] = False
-        ub['anns'] = [('virtual', ['lonely'])]
+        ub['anns'] = [('virtual', ['lonely'])] + ([('method', [])] if rng.random() < 0.5 else [])     # also with a misplaced (method)
         blocks.append(('foo_obj_util', ub, render_block('foo_obj_util', ub, ['x'])))
-    return dict(syms=syms, blocks=blocks, elems=elems, dump=dump, fnames=fnames, renames=renames, mnames=mnames, mrenames=mrenames, vfuncs=vf)
+    return dict(syms=syms, blocks=blocks, elems=elems, dump=dump, fnames=fnames, renames=renames, mnames=mnames, mrenames=mrenames, vfuncs=vf,
+                members=mdocs)
 
 
 def tag_clauses(ck, S, el, b, case):
@@ -336,6 +357,31 @@ def main(tier, seed):
                     v = dict(b['anns']).get('value')
                     if v and el.get('value') != v[0]:
                         ck.failing_input('(value) does not override the constant', case, detail=el.attrib)
+        # enumeration members
+        tone = next((x for x in ns.findall(S.CORE + 'enumeration') if x.get(S.CNS + 'type') == 'FooTone'), None)
+        for m, info in w['members'].items():
+            mel = None if tone is None else next((x for x in tone.findall(S.CORE + 'member') if x.get(S.CNS + 'identifier') == m), None)
+            case = dict(member=m, own_block=None if info['own'] is None else render_block(m, info['own']), listed_in_enumeration_block=info['listed'])
+            if mel is None:
+                ck.failing_input('an enumeration member is missing from the GIR', case)
+            elif info['own'] is not None:
+                tag_clauses(ck, S, mel, info['own'], case)
+                if info['own']['skip'] and mel.get('introspectable') != '0':
+                    ck.failing_input('(skip) in the block of an enumeration member does not make it non-introspectable', case, detail=mel.attrib)
+            elif any(mel.get(a) for a in ('version', 'deprecated', 'stability')) or mel.findall(S.CORE + 'attribute'):
+                ck.failing_input('an enumeration member without a block of its own carries version/deprecation/stability/attributes', case,
+                                 detail=mel.attrib)
+        # target annotations of functions: each appears as the corresponding attribute
+        for key, b, _ in w['blocks']:
+            if not key.startswith('foo_fn_'):
+                continue
+            fel = find_el(ns, S, ('function', key[4:]))
+            if fel is None:
+                continue
+            for an, opts in b['anns']:
+                if an in ('finish-func', 'sync-func', 'async-func', 'set-property', 'get-property') and fel.get(S.GLIB + an) != opts[0]:
+                    ck.failing_input('the (%s) annotation of a function does not appear as glib:%s naming the given target' % (an, an),
+                                     dict(function=key, block=render_block(key, b, ['x'])), detail=fel.attrib)
         # virtual methods: own block, else the invoker's block; the invoker is named
         cls = find_el(ns, S, ('class', 'Obj'))
         vms = {v.get('name'): v for v in (cls.findall(S.CORE + 'virtual-method') if cls is not None else [])}
